@@ -43,7 +43,7 @@ CASE_TIMEOUT = 120
 
 
 def budget(tier):
-    return 700 if tier == "quick" else 20000
+    return 700 if tier == "quick" else 5000
 
 
 OTHER1 = ["S\tZq\t*", "S\tZq\tACGT\tLN:i:4", "L\t{s}\t+\t{s}\t-\t*", "C\t{s}\t+\t{s}\t+\t0\t*", "P\tpz\t{s}+\t*",
@@ -69,16 +69,24 @@ def gen_case(rng, tier, i):
         lines = list(d["lines"])
         label = base_v
         if kind == "mixed":
-            segs = [l.split("\t")[1] for l in lines if l.startswith("S\t")] or ["Zq"]
             pool = OTHER2 if base_v == "gfa1" else OTHER1
             # custom records are outside the claim when GFA1 content is present
             lines = [l for l in lines if l.startswith("#") or l.split("\t")[0] in "HSLCPEFGOU"]
-            if not lines:
-                lines = ["S\tA\t*" if base_v == "gfa1" else "S\tA\t4\t*"]
+            segs = [l.split("\t")[1] for l in lines if l.startswith("S\t")]
+            if not segs:
+                lines.append("S\tA\t*" if base_v == "gfa1" else "S\tA\t4\t*")
                 segs = ["A"]
+            new_ids = set()
             for _ in range(rng.choice([1, 1, 2])):
                 if len(lines) < (6 if not big else 8):
-                    lines.insert(rng.randint(0, len(lines)), rng.choice(pool).format(s=rng.choice(segs)))
+                    x = rng.choice(pool).format(s=rng.choice(segs))
+                    f = x.split("\t")
+                    nid = f[1] if f[0] in "SPOUEG" and f[1] != "*" else None
+                    if x in lines or (nid and nid in new_ids):
+                        continue
+                    if nid:
+                        new_ids.add(nid)
+                    lines.insert(rng.randint(0, len(lines)), x)
     vparam = rng.choice([None, None, "gfa1", "gfa2"])
     if kind.startswith("pure") and rng.random() < 0.6:
         vparam = rng.choice([None, label])
@@ -261,7 +269,7 @@ def oracle(case):
 
 
 def _short(key):
-    return key[0] if key[0] != "ok" else "ok=%s" % key[1]
+    return key[0].replace(":", "=") if key[0] != "ok" else "ok=%s" % key[1]
 
 
 def shrink(case, failure):
